@@ -257,6 +257,8 @@ def run(tier, seed):
                sfc_models.models.Model._CreateFinalEquations, sfc_models.sector.Sector._CreateFinalEquations)
     N = 12 if tier == 'quick' else 16
     cases = [(site, n) for site in SITES for n in range(0, N + 1)]
+    from vf import selfcheck
+    selfcheck.run_str(chk)      # differential validation of the E2 value class against the plain run (trusted base)
     lb = line_blocks(tier)
     ds = descriptions(tier)
     chk.bounds = {'symbolic comment text': 'every string of every length 0..%d over printable ASCII (32..126) at each of %d sites %r' % (N, len(SITES), sorted(SITES)),
